@@ -5,6 +5,7 @@ import Sudachi.Proofs.SentenceFix
 import Sudachi.Proofs.SentenceTotal
 import Sudachi.Proofs.SentenceBytes
 import Sudachi.Proofs.SentenceRegex
+import Sudachi.Proofs.SentenceIff
 /-!
 # C16 — Sentence splitting partitions the text and breaks only after terminators
 
@@ -25,6 +26,17 @@ character-index model — no slice is ever off a boundary or out of range), `che
 (UTF-8 self-synchronisation), the window-edge clause (`no_break_at_window_edge_inside_word`,
 `window_vs_whole_witness`) and declarative regex specifications of four of the patterns
 (`*_regex_spec`).  The driver answers with the byte-offset functions.
+
+Third round (depth): the converse clause is no longer `_partial`: `Exempt` is the exact exemption set of
+the loop body (`loop_body_veto_iff`), `terminator_breaks_iff` says that `get_eos` answers the extended end
+of the FIRST match in the window that is not exempt, `no_boundary_iff` that it is negative exactly when
+every match in the window is exempt, `terminator_breaks_split` lifts this to the iterator; the window is a
+visible hypothesis (`e0 ∈ matchEnds … (input.take limit)`), D13 stays a counterexample of the window-free
+clause.  The veto direction of the byte look-back is proved for every text, i.e. every mix of 1-, 2-, 3-
+and 4-byte characters (`checker_vetoes_word_within_lookback`, `no_break_inside_word_within_lookback[_split]`,
+`checker_veto_iff_fix`).  SENTENCE_BREAKER with `find_iter` and SPACES with `find` are proved equal to the
+leftmost-first (backtracking) semantics of their patterns, which here coincides with leftmost-longest
+(`sentence_breaker_regex_spec`, `sentence_breaker_find_iter_spec`, `spaces_regex_spec`).
 
 Every function takes the variant `v : CkVariant` of the `Ordering::Equal` arm of `has_non_break_word`:
 `.cur` = the code as it was (`input[i..].chars().take(2).count() > 1`, returned at once — defect D12),
@@ -230,11 +242,13 @@ theorem checker_veto_is_multichar_word_fix (lexs : List (List (List Nat))) (inpu
 
 /-! ## the converse clause -/
 
-/-- **Converse, as far as it holds on the unchanged code** (`terminator_breaks`, partial).
-Full statement of the property: *a terminator that is not bracketed, not followed by a quoting
-particle, not an itemisation header and not inside a multi-character dictionary word ends a sentence,
-for every window limit; a one-character dictionary entry never suppresses the break* — this is
-**false** on the unchanged code (`d12_counterexample`, `d13_counterexample` below).
+/-- **Converse inside the window: the first match that is not vetoed decides.**
+The clause of the property *a terminator that is not bracketed, not followed by a quoting particle, not an
+itemisation header and not inside a multi-character dictionary word ends a sentence, for every window
+limit* is **false** without a window condition (`d13_counterexample`; for the arm as it was also
+`d12_counterexample`).  The exact form that holds is `terminator_breaks_iff` below (exemption set `Exempt`,
+window condition as a hypothesis); this theorem and the next three are its one-directional corollaries
+stated on the loop body, kept because they need no `ValidChecker` hypothesis.
 
 Proved: `matchEnds 0 none 0 s` are the ends of the successive non-overlapping matches of
 SENTENCE_BREAKER inside the window `s = input.take limit` (`match_ends_are_matches`).  If the loop
@@ -244,11 +258,10 @@ extended end of the first non-vetoed match, which is at or before that one — s
 that terminator or earlier (or the checker panics).  `find_iter_misses_no_terminator` shows that
 `matchEnds` contains the end of *every* anchored match of SENTENCE_BREAKER in the window (a match that
 starts inside an earlier, vetoed match ends where that match ends), and
-`terminator_breaks_anywhere_partial` combines the two.  What is missing for the full statement:
-(1) terminators beyond the window (D13); (2) for `.cur` the checker's answer is not characterised as
-"inside a multi-character word" — it cannot be, D12; for `.fix` it is, see
-`terminator_breaks_fix_partial`. -/
-theorem terminator_breaks_partial (v : CkVariant) (limit : Nat) (ck : Option (List (List (List Nat))))
+`unvetoed_terminator_decides` combines the two.  Outside these statements by hypothesis: terminators
+beyond the window (D13, `hm`); for `.cur` the checker's veto is not "inside a multi-character word" (D12),
+for `.fix` it is (`terminator_breaks_fix`, `checker_veto_iff_fix`). -/
+theorem first_unvetoed_match_decides (v : CkVariant) (limit : Nat) (ck : Option (List (List (List Nat))))
     (input : Text) (hne : input ≠ []) (e0 : Nat)
     (hm : e0 ∈ matchEnds 0 none 0 (input.take limit))
     (hv : examine v ck input (input.take limit) e0 ≠ .veto) :
@@ -260,7 +273,7 @@ theorem terminator_breaks_partial (v : CkVariant) (limit : Nat) (ck : Option (Li
 /-- Without a checker: a match of SENTENCE_BREAKER in the window whose end is at bracket level 0, whose
 window is not an itemise header and which is not followed by a continued phrase (quote particle /
 `1.と`) makes `get_eos` non-negative — the sentence ends at that terminator or earlier. -/
-theorem terminator_breaks_no_checker_partial (v : CkVariant) (limit : Nat) (input : Text) (hne : input ≠ []) (e0 : Nat)
+theorem terminator_breaks_no_checker (v : CkVariant) (limit : Nat) (input : Text) (hne : input ≠ []) (e0 : Nat)
     (hm : e0 ∈ matchEnds 0 none 0 (input.take limit))
     (h1 : parenLevel ((input.take limit).take e0) = 0)
     (h2 : isItemizeHeader (input.take limit) = false)
@@ -288,9 +301,9 @@ dictionary word* — no key found in the 30-byte look-back crosses it, and no ke
 characters ends at it — is not vetoed: `get_eos` answers the accept of the first non-vetoed match, at
 or before it (or the checker panics on an earlier match).  One-character dictionary entries, the
 terminator itself included, do not appear in the hypotheses: they never suppress the break.
-Still `_partial` because of the window (D13): the match must lie inside `input.take limit`.
-For `.cur` this statement is false (`d12_counterexample`). -/
-theorem terminator_breaks_fix_partial (limit : Nat) (lexs : List (List (List Nat)))
+The window is the hypothesis `hm` (the match lies inside `input.take limit`); without it the statement is
+false (D13).  For `.cur` this statement is false (`d12_counterexample`). -/
+theorem terminator_breaks_fix (limit : Nat) (lexs : List (List (List Nat)))
     (input : Text) (hne : input ≠ []) (e0 : Nat)
     (hm : e0 ∈ matchEnds 0 none 0 (input.take limit))
     (h1 : parenLevel ((input.take limit).take e0) = 0)
@@ -333,7 +346,7 @@ theorem find_iter_misses_no_terminator (s : Text) (j n : Nat)
 /-- Converse for an arbitrary terminator occurrence inside the window: if SENTENCE_BREAKER matches at
 position `j` of the window and the loop body does not veto the end of that match, `get_eos` answers a
 break that comes from a match ending at or before it (or the checker panics). -/
-theorem terminator_breaks_anywhere_partial (v : CkVariant) (limit : Nat) (ck : Option (List (List (List Nat))))
+theorem unvetoed_terminator_decides (v : CkVariant) (limit : Nat) (ck : Option (List (List (List Nat))))
     (input : Text) (hne : input ≠ []) (j n : Nat)
     (hb : breakerAt (prevChar (input.take limit) j) ((input.take limit).drop j) = some n)
     (hv : examine v ck input (input.take limit) (j + n) ≠ .veto) :
@@ -570,6 +583,256 @@ theorem parenthesis_regex_spec (s : Text) :
     parenLevel s = (s.filter (fun c => isOpen c || isClose c)).foldl parenBody 0 :=
   ⟨fun _ => reParenthesis_matches, parenLevel_spec s⟩
 
+/-! ## third round: the byte look-back in the veto direction, the exact converse, the last two patterns -/
+
+/-- **The checker vetoes every candidate inside a word that starts in the look-back** (byte level, both
+variants).  `has_non_break_word` probes EVERY byte offset `i` with `eosB - 30 ≤ i < eosB` of the UTF-8
+bytes of the whole remaining text — offsets inside a multi-byte character included, `eosB - 30` itself may
+be one.  If a non-empty key of any lexicon is a prefix of the bytes at such an `i` and crosses the
+candidate, or ends at it and consists of two or more whole characters, the answer is `true`.  The text is
+arbitrary, so this holds for 1-, 2-, 3- and 4-byte characters and any mix (`width`), which is where the
+30 BYTES differ from "10 characters" (seeded change C16c).  `eosB` is a character boundary, as every
+candidate of `get_eos` is.  Beyond 30 bytes the statement is false: `lookback_counterexample` (D12b). -/
+theorem checker_vetoes_word_within_lookback (v : CkVariant) (lexs : List (List (List Nat)))
+    (hv : ValidKeys lexs) (input : Text) (eosB i : Nat) (lex : List (List Nat)) (hlex : lex ∈ lexs)
+    (key : List Nat) (hkey : key ∈ lex) (hne : key ≠ []) (hpre : key <+: (utf8 input).drop i)
+    (hE : ∃ e, eosB = blen (input.take e)) (h1 : eosB - 30 ≤ i) (h2 : i < eosB)
+    (h3 : eosB < i + key.length ∨ (i + key.length = eosB ∧ MultiCharWordAt input i key)) :
+    hasNonBreakWord v lexs input eosB = .ok true :=
+  hasNonBreakWord_true_of_word v hv hlex hkey hne hpre hE h1 h2 h3
+
+/-- a dictionary word `w` (its UTF-8 form is a key) occurs in `pre ++ w ++ post` right after `pre`; the
+candidate after `e` characters lies inside it or at its end, `w` has two or more characters when it ends
+there, and the word starts at most 30 BYTES before the candidate -/
+def WordWithinLookback (lexs : List (List (List Nat))) (pre w post : Text) (e : Nat) : Prop :=
+  (∃ lex ∈ lexs, utf8 w ∈ lex) ∧ pre.length < e ∧ e ≤ pre.length + w.length ∧
+  (e = pre.length + w.length → 2 ≤ w.length) ∧
+  blen ((pre ++ w ++ post).take e) ≤ blen pre + 30
+
+/-- **No break inside a multi-character dictionary word that starts within the look-back**
+(`get_eos` level, both variants, every encoding width): if the dictionary word `w` occurs in the remaining
+text, contains or ends with the candidate position `e` (with two or more characters when it ends there)
+and starts at most 30 bytes before it, `get_eos` does not answer `e`. -/
+theorem no_break_inside_word_within_lookback (v : CkVariant) (limit : Nat) (hl : 1 ≤ limit)
+    (lexs : List (List (List Nat))) (hv : ValidKeys lexs) (pre w post : Text) (e : Nat)
+    (hw : WordWithinLookback lexs pre w post e) :
+    getEos v limit (some lexs) (pre ++ w ++ post) ≠ .ok (.pos e) := by
+  obtain ⟨⟨lex, hlex, hkey⟩, he1, he2, he3, he4⟩ := hw
+  intro h
+  have hne : pre ++ w ++ post ≠ [] := by
+    intro hn
+    have := congrArg List.length hn
+    simp only [List.length_append, List.length_nil] at this
+    omega
+  obtain ⟨k, n, pv, _, _, acc⟩ := getEos_pos hl hne h
+  have hfalse := acc.noWord lexs rfl
+  have hle := acc.le
+  have htake : ((pre ++ w ++ post).take limit).take e = (pre ++ w ++ post).take e := by
+    rw [List.take_take]
+    congr 1
+    simp only [List.length_take] at hle
+    omega
+  rw [htake] at hfalse
+  -- the candidate in bytes: the bytes of `pre` and of the first `e - pre.length` characters of `w`
+  have hsplit : (pre ++ w ++ post).take e = pre ++ w.take (e - pre.length) := by
+    rw [List.append_assoc, List.take_append, List.take_of_length_le (by omega),
+      List.take_append_of_le_length (by omega)]
+  have hwne : w ≠ [] := by
+    intro hn; subst hn; simp at he2; omega
+  have hkne : utf8 w ≠ [] := utf8_ne_nil hwne
+  have hpre : utf8 w <+: (utf8 (pre ++ w ++ post)).drop (blen pre) := by
+    rw [utf8_drop_split]; exact List.prefix_append _ _
+  have hpos : blen pre < blen ((pre ++ w ++ post).take e) := by
+    rw [hsplit, blen_append]
+    have : w.take (e - pre.length) ≠ [] := by
+      intro hn
+      have := congrArg List.length hn
+      simp only [List.length_take, List.length_nil] at this
+      omega
+    have := blen_pos_of_ne_nil this
+    omega
+  have hend : blen ((pre ++ w ++ post).take e) ≤ blen pre + (utf8 w).length := by
+    rw [hsplit, blen_append, utf8_length]
+    have := blen_take_le w (e - pre.length)
+    omega
+  have htrue := checker_vetoes_word_within_lookback v lexs hv (pre ++ w ++ post)
+    (blen ((pre ++ w ++ post).take e)) (blen pre) lex hlex (utf8 w) hkey hkne hpre ⟨e, rfl⟩
+    (by omega) hpos (by
+      by_cases hlt : blen ((pre ++ w ++ post).take e) < blen pre + (utf8 w).length
+      · exact Or.inl hlt
+      · refine Or.inr ⟨by omega, pre, w, post, rfl, rfl, rfl, ?_⟩
+        apply he3
+        -- the candidate is at the end of `w` in bytes, hence in characters
+        apply Classical.byContradiction
+        intro hne'
+        have hlt' : e - pre.length < w.length := by omega
+        have := blen_take_lt hlt'
+        rw [hsplit, blen_append, utf8_length] at hlt
+        omega)
+  rw [htrue] at hfalse
+  cases hfalse
+
+/-- the same for the sentences of the iterator: no sentence except possibly the last ends inside / at the
+end of a multi-character dictionary word that starts within 30 bytes before the break (the text from the
+start of the sentence is `pre ++ w ++ post'`, the sentence has `e` characters) -/
+theorem no_break_inside_word_within_lookback_split (v : CkVariant) (limit : Nat) (hl : 1 ≤ limit)
+    (lexs : List (List (List Nat))) (hv : ValidKeys lexs) (text : Text) (l : List Sent)
+    (h : split v limit (some lexs) text = .ok l) :
+    ∀ x ∈ l.dropLast, ∃ before post, text = before ++ x.chunk ++ post ∧
+      ∀ pre w post', x.chunk ++ post = pre ++ w ++ post' →
+        ¬ WordWithinLookback lexs pre w post' x.chunk.length := by
+  intro x hx
+  obtain ⟨before, post, hsplit, _, hg⟩ := nonlast_is_get_eos v limit hl _ text l h x hx
+  refine ⟨before, post, hsplit, ?_⟩
+  intro pre w post' heq hw
+  rw [heq] at hg
+  exact no_break_inside_word_within_lookback v limit hl lexs hv pre w post' _ hw hg
+
+/-- **The repaired checker, both directions** (`.fix`, valid UTF-8 keys): it answers `true` **iff** the
+candidate is inside a multi-character dictionary word it can see (`InsideWord`: a key found at a byte
+offset of the 30-byte look-back crosses the candidate, or a key of two or more whole characters ends at
+it). -/
+theorem checker_veto_iff_fix (lexs : List (List (List Nat))) (hv : ValidKeys lexs) (input : Text) (eosB : Nat)
+    (hE : ∃ e, eosB = blen (input.take e)) :
+    hasNonBreakWord .fix lexs input eosB = .ok true ↔ InsideWord lexs input eosB := by
+  have := blocked_fix_iff hv input eosB hE
+  constructor
+  · intro h; exact this.mp ⟨lexs, rfl, h⟩
+  · intro h
+    obtain ⟨l, hl, hh⟩ := this.mpr h
+    cases hl
+    exact hh
+
+/-- **The loop body of `get_eos`, exactly** (both variants, valid UTF-8 keys): a match of SENTENCE_BREAKER
+ending at character `e0 ≥ 1` of the window `s` is skipped (`continue`) **iff** it is in the exemption set
+`Exempt`: (1) bracket level above 0 at its end, (2) the window is an itemisation header, (3) the extended
+end is followed by a quoting particle / is an itemisation header followed by と, や, の, (4) the checker
+answers `true` for the extended end — for `.fix` that is `InsideWord` (`checker_veto_iff_fix`).
+Otherwise the loop returns the extended end `extEnd s e0`; it never panics. -/
+theorem loop_body_veto_iff (v : CkVariant) (ck : Option (List (List (List Nat)))) (hv : ValidChecker ck)
+    (input s : Text) (e0 : Nat) (h0 : 1 ≤ e0) :
+    (examine v ck input s e0 = .veto ↔ Exempt v ck input s e0) ∧
+    (¬ Exempt v ck input s e0 → examine v ck input s e0 = .accept (extEnd s e0)) := by
+  refine ⟨examine_veto_iff hv input s h0, fun hn => ?_⟩
+  rcases examine_cases (v := v) hv input s h0 with ⟨h1, _⟩ | ⟨_, h2⟩
+  · exact absurd h1 hn
+  · exact h2
+
+/-- **Converse clause, exact, window condition as a hypothesis** (`terminator_breaks_iff`; both variants,
+every limit `≥ 1`, valid UTF-8 keys).  `get_eos` answers the sentence end `e` **iff** `e` is the extended
+end of a match `e0` of SENTENCE_BREAKER **in the window** `input.take limit` (`e0 ∈ matchEnds …`: what
+`find_iter` yields, `sentence_breaker_find_iter_spec`; every anchored match end is among them,
+`find_iter_misses_no_terminator`) that is **not exempt**, all earlier matches in the window being exempt.
+So inside the window a terminator that is not bracketed, not an itemisation header, not continued by a
+quoting particle and (for `.fix`) not inside a multi-character dictionary word DOES end a sentence — at
+its own extended end or at that of an earlier such terminator; a one-character dictionary entry is not in
+the exemption set.  A terminator beyond the window is not in `matchEnds (input.take limit)`: D13 is excluded
+by this hypothesis and stays `d13_counterexample`. -/
+theorem terminator_breaks_iff (v : CkVariant) (limit : Nat) (hl : 1 ≤ limit)
+    (ck : Option (List (List (List Nat)))) (hv : ValidChecker ck) (input : Text) (hne : input ≠ []) (e : Nat) :
+    getEos v limit ck input = .ok (.pos e) ↔
+      ∃ e0 ∈ matchEnds 0 none 0 (input.take limit),
+        ¬ Exempt v ck input (input.take limit) e0 ∧
+        (∀ e0' ∈ matchEnds 0 none 0 (input.take limit), e0' < e0 → Exempt v ck input (input.take limit) e0') ∧
+        e = extEnd (input.take limit) e0 :=
+  getEos_pos_iff hv limit hl hne e
+
+/-- the same when the whole remaining text fits the window (`input.length ≤ limit`): no window in the
+statement -/
+theorem terminator_breaks_iff_fits (v : CkVariant) (limit : Nat) (hl : 1 ≤ limit)
+    (ck : Option (List (List (List Nat)))) (hv : ValidChecker ck) (input : Text) (hne : input ≠ [])
+    (hfit : input.length ≤ limit) (e : Nat) :
+    getEos v limit ck input = .ok (.pos e) ↔
+      ∃ e0 ∈ matchEnds 0 none 0 input, ¬ Exempt v ck input input e0 ∧
+        (∀ e0' ∈ matchEnds 0 none 0 input, e0' < e0 → Exempt v ck input input e0') ∧ e = extEnd input e0 := by
+  have := terminator_breaks_iff v limit hl ck hv input hne e
+  rwa [List.take_of_length_le hfit] at this
+
+/-- **No boundary iff everything in the window is exempt**: `get_eos` returns a negative (provisional)
+value exactly when every match of SENTENCE_BREAKER in the window is exempt — in particular when the window
+holds no terminator, whatever follows it (this is the D13 situation, stated as what the code does). -/
+theorem no_boundary_iff (v : CkVariant) (limit : Nat) (hl : 1 ≤ limit)
+    (ck : Option (List (List (List Nat)))) (hv : ValidChecker ck) (input : Text) (hne : input ≠ []) :
+    (∃ e, getEos v limit ck input = .ok (.neg e)) ↔
+      ∀ e0 ∈ matchEnds 0 none 0 (input.take limit), Exempt v ck input (input.take limit) e0 :=
+  getEos_neg_iff hv limit hl hne
+
+/-- **Converse clause at the iterator**: for EVERY sentence `x` the iterator yields (the last one
+included), with `rest = x.chunk ++ post` the text from its start: every match of SENTENCE_BREAKER in the
+window of `rest` that is not exempt has its extended end at or behind the end of `x` — a non-exempt
+terminator within the window of its sentence start is followed by a break no later than its extended
+end. -/
+theorem terminator_breaks_split (v : CkVariant) (limit : Nat) (hl : 1 ≤ limit)
+    (ck : Option (List (List (List Nat)))) (hv : ValidChecker ck) (text : Text) (l : List Sent)
+    (h : split v limit ck text = .ok l) :
+    ∀ x ∈ l, ∃ pre post, text = pre ++ x.chunk ++ post ∧
+      ∀ e0 ∈ matchEnds 0 none 0 ((x.chunk ++ post).take limit),
+        ¬ Exempt v ck (x.chunk ++ post) ((x.chunk ++ post).take limit) e0 →
+        x.chunk.length ≤ extEnd ((x.chunk ++ post).take limit) e0 := by
+  intro x hx
+  obtain ⟨pre, post, hsplit, hne, hg⟩ := splitFuel_link_all hl _ _ _ _ h x hx
+  refine ⟨pre, post, hsplit, ?_⟩
+  intro e0 hm hnE
+  have hne' : x.chunk ++ post ≠ [] := by simp [hne]
+  rcases hg with hg | ⟨hpost, e, hg⟩
+  · obtain ⟨a, _, hna, hfirst, hea⟩ := (terminator_breaks_iff v limit hl ck hv _ hne' _).mp hg
+    have hle : a ≤ e0 := by
+      apply Classical.byContradiction
+      intro hlt
+      exact hnE (hfirst e0 hm (by omega))
+    rw [hea]
+    exact extEnd_mono _ hle
+  · subst hpost
+    rw [List.append_nil] at hm hnE ⊢
+    have := (no_boundary_iff v limit hl ck hv _ hne).mp ⟨e, hg⟩ e0 hm
+    exact absurd this hnE
+
+/-- **SENTENCE_BREAKER, anchored** — `([PERIODS]|・{3,}+|(?<![AN])[DOT](?![AN COMMA]))[DOT PERIODS]*|(<br>|<BR>){2,}`
+written as the `RX` value `reBreaker` (alternation in the order written, possessive `{3,}+`, greedy `*` and
+`{2,}`, negative look-behind and look-ahead).  The hand-written `breakerAt` answers the FIRST length in
+backtracking order (leftmost-first: what `fancy_regex` reports for a match starting here), and that length
+is the LARGEST the pattern can take here, so leftmost-longest semantics would agree. -/
+theorem sentence_breaker_regex_spec (prev : Option Nat) (l : Text) :
+    (RX.run reBreaker prev l).head? = breakerAt prev l ∧
+    ∀ m ∈ RX.run reBreaker prev l, ∃ n, breakerAt prev l = some n ∧ m ≤ n :=
+  breakerAt_spec prev l
+
+/-- **`SENTENCE_BREAKER.find_iter(&s)`**: the ends of the successive non-overlapping leftmost-first matches
+of `reBreaker` in the window (`RX.findIter`: each search starts where the previous match ended, the
+look-behind sees the whole haystack) are exactly the ends `matchEnds` that the loop of `get_eos` examines. -/
+theorem sentence_breaker_find_iter_spec (s : Text) :
+    (RX.findIter reBreaker (s.length + 1) 0 none s).map (·.2) = matchEnds 0 none 0 s :=
+  matchEnds_findIter (s.length + 1) s 0 none (Nat.lt_succ_self _)
+
+/-- **SPACES `.+\s+` with `find`**: `spacesEnd s` is the end of the leftmost-first match of `reSpaces` in the
+window (`.` = any character but `\n`, both `+` greedy), `none` iff there is no match; and at every position
+the first length in backtracking order is the largest, so leftmost-longest would agree. -/
+theorem spaces_regex_spec (s : Text) :
+    (RX.findFrom reSpaces 0 none s).map (·.2) = spacesEnd s ∧
+    ∀ (l : Text) (prev : Option Nat), ∀ m ∈ RX.run reSpaces prev l,
+      ∃ n, (RX.run reSpaces prev l).head? = some n ∧ m ≤ n := by
+  refine ⟨?_, fun l prev => reSpaces_longest l prev⟩
+  rw [spacesEnd_spec s 0 none]
+  cases spacesEnd s with
+  | none => rfl
+  | some e => simp
+
+/-- **What `suf=` of the answer line is**: the value of `get_eos` on the suffix of the text at each of its
+first `sufCount` character positions (the slice `&text[b..]` never panics) — the harness computes the same
+list with the real `SentenceDetector`, so every alignment of the 30-byte look-back and of the window
+against the characters of a generated text is compared, not only the ones the iterator visits -/
+theorem suffix_values_spec (v : CkVariant) (limit : Nat) (ck : Option (List (List (List Nat)))) (text : Text) :
+    suffixValues v limit ck text =
+      (List.range (min (text.length + 1) (sufCount text))).map (fun k =>
+        match getEosB v limit ck (text.drop k) with
+        | .panic => "PANIC"
+        | .ok rv => toString rv) := by
+  unfold suffixValues
+  apply List.map_congr_left
+  intro k _
+  simp only [strSlice_tail]
+  cases getEosB v limit ck (List.drop k text) <;> rfl
+
 /-! ## non-vacuity -/
 
 /-- the hypotheses of the theorems above are satisfiable and the conclusions are not trivially true:
@@ -603,7 +866,7 @@ example (v : CkVariant) : (1 : Nat) ≤ 8 ∧ ([0x3042] : Text) ≠ [] ∧ IsTer
     Or.inr (Or.inl ⟨3, by decide, by decide⟩), Or.inr (Or.inr ⟨2, by decide, by decide, by decide⟩),
     by cases v <;> decide⟩
 
-/-- the hypotheses of `terminator_breaks_fix_partial` are satisfiable with a dictionary that lists the
+/-- the hypotheses of `terminator_breaks_fix` are satisfiable with a dictionary that lists the
 terminator itself: `あ。あ` with `{。, あ}` — the match ending at 2 is at level 0, not continued, and the
 only keys in the look-back are the one-character words `あ` (ends before the break) and `。` -/
 example : (2 : Nat) ∈ matchEnds 0 none 0 ([0x3042, 0x3002, 0x3042].take 4096) ∧
@@ -668,5 +931,92 @@ example : reItemize.Matches [0x31, 0x2E] ∧ reProhibitedBos.Matches [0xFF09, 0x
   refine ⟨reItemize_matches.mpr ⟨_, _, rfl, by decide, by decide⟩,
     matches_plus_cls.mpr ⟨by simp, by decide⟩,
     reQuoteMarker_matches.mpr ⟨_, Or.inl rfl, Or.inr (Or.inr rfl)⟩, by decide⟩
+
+/-! ### third round -/
+
+/-- **every encoding width, look-back start inside a character**: a dictionary word that starts within
+30 bytes before the candidate is seen by the checker (`true`) — `w×29 !` (1-byte characters, the word
+starts exactly 30 bytes before the candidate), `é` + `é×14 !` (2-byte, the look-back starts at byte 1 of
+`é`), `あ` + `あ×8 abc!` (3-byte, byte 1 of `あ`), `𠮷` + `𠮷×7 !` (4-byte, byte 3 of `𠮷`) -/
+example (v : CkVariant) :
+    hasNonBreakWord v [[utf8 (List.replicate 29 0x77 ++ [0x21])]]
+      (List.replicate 29 0x77 ++ [0x21] ++ [0x78]) 30 = .ok true ∧
+    hasNonBreakWord v [[utf8 (List.replicate 14 0xE9 ++ [0x21])]]
+      ([0xE9] ++ (List.replicate 14 0xE9 ++ [0x21]) ++ [0x78]) 31 = .ok true ∧
+    hasNonBreakWord v [[utf8 (List.replicate 8 0x3042 ++ [0x61, 0x62, 0x63, 0x21])]]
+      ([0x3042] ++ (List.replicate 8 0x3042 ++ [0x61, 0x62, 0x63, 0x21]) ++ [0x78]) 31 = .ok true ∧
+    hasNonBreakWord v [[utf8 (List.replicate 7 0x20BB7 ++ [0x21])]]
+      ([0x20BB7] ++ (List.replicate 7 0x20BB7 ++ [0x21]) ++ [0x78]) 33 = .ok true := by
+  cases v <;> decide
+
+/-- … and one byte further the word is no longer seen (`false`: the look-back limit D12b), for every width:
+`w×30 !`, `é×15 !`, `あ×9 abc!`, `𠮷×7 。` are 31 bytes each, the candidate is at byte 31, the look-back
+starts at byte 1 (inside the first character for the last three) and the word at byte 0 -/
+example (v : CkVariant) :
+    hasNonBreakWord v [[utf8 (List.replicate 30 0x77 ++ [0x21])]]
+      (List.replicate 30 0x77 ++ [0x21] ++ [0x78]) 31 = .ok false ∧
+    hasNonBreakWord v [[utf8 (List.replicate 15 0xE9 ++ [0x21])]]
+      (List.replicate 15 0xE9 ++ [0x21] ++ [0x78]) 31 = .ok false ∧
+    hasNonBreakWord v [[utf8 (List.replicate 9 0x3042 ++ [0x61, 0x62, 0x63, 0x21])]]
+      (List.replicate 9 0x3042 ++ [0x61, 0x62, 0x63, 0x21] ++ [0x78]) 31 = .ok false ∧
+    hasNonBreakWord v [[utf8 (List.replicate 7 0x20BB7 ++ [0x3002])]]
+      (List.replicate 7 0x20BB7 ++ [0x3002] ++ [0x78]) 31 = .ok false := by
+  cases v <;> decide
+
+/-- the hypothesis `WordWithinLookback` is satisfiable for each width (the four words above, the candidate
+at the end of the word) and `hE` (`eosB` is a character boundary) is what `get_eos` provides -/
+example :
+    WordWithinLookback [[utf8 (List.replicate 29 0x77 ++ [0x21])]] [] (List.replicate 29 0x77 ++ [0x21]) [0x78] 30 ∧
+    WordWithinLookback [[utf8 (List.replicate 14 0xE9 ++ [0x21])]] [0xE9] (List.replicate 14 0xE9 ++ [0x21]) [0x78] 16 ∧
+    WordWithinLookback [[utf8 (List.replicate 8 0x3042 ++ [0x61, 0x62, 0x63, 0x21])]] [0x3042]
+      (List.replicate 8 0x3042 ++ [0x61, 0x62, 0x63, 0x21]) [0x78] 13 ∧
+    WordWithinLookback [[utf8 (List.replicate 7 0x20BB7 ++ [0x21])]] [0x20BB7] (List.replicate 7 0x20BB7 ++ [0x21]) [0x78] 9 ∧
+    -- a word that CONTAINS the terminator: `な。な` in `ばな。なです。`, candidate after 3 characters
+    WordWithinLookback [[utf8 [0x306A, 0x3002, 0x306A]]] [0x3070] [0x306A, 0x3002, 0x306A] [0x3067, 0x3059, 0x3002] 3 ∧
+    (∃ e, (31 : Nat) = blen (([0xE9] ++ (List.replicate 14 0xE9 ++ [0x21]) ++ [0x78]).take e)) := by
+  refine ⟨⟨⟨_, List.Mem.head _, List.Mem.head _⟩, by decide, by decide, by decide, by decide⟩,
+          ⟨⟨_, List.Mem.head _, List.Mem.head _⟩, by decide, by decide, by decide, by decide⟩,
+          ⟨⟨_, List.Mem.head _, List.Mem.head _⟩, by decide, by decide, by decide, by decide⟩,
+          ⟨⟨_, List.Mem.head _, List.Mem.head _⟩, by decide, by decide, by decide, by decide⟩,
+          ⟨⟨_, List.Mem.head _, List.Mem.head _⟩, by decide, by decide, by decide, by decide⟩,
+          ⟨16, by decide⟩⟩
+
+/-- each of the four exemptions is inhabited and so is its complement: `（あ。` (bracket), the window `1.`
+(itemisation header; never reached by the loop — the period after an alphanumeric is no match), `あ！と`
+(quoting particle), `ばな。な` with `{な。な}` (inside a dictionary word); `あ。い` is not exempt and
+`get_eos` answers its extended end -/
+example (v : CkVariant) :
+    Exempt v none [0xFF08, 0x3042, 0x3002] [0xFF08, 0x3042, 0x3002] 3 ∧
+    Exempt v none [0x31, 0x2E] [0x31, 0x2E] 2 ∧
+    Exempt v none [0x3042, 0xFF01, 0x3068] [0x3042, 0xFF01, 0x3068] 2 ∧
+    Exempt v (some [[utf8 [0x306A, 0x3002, 0x306A]]]) [0x3070, 0x306A, 0x3002, 0x306A] [0x3070, 0x306A, 0x3002, 0x306A] 3 ∧
+    InsideWord [[utf8 [0x306A, 0x3002, 0x306A]]] [0x3070, 0x306A, 0x3002, 0x306A] 9 ∧
+    ¬ Exempt v none [0x3042, 0x3002, 0x3044] [0x3042, 0x3002, 0x3044] 2 ∧
+    (2 : Nat) ∈ matchEnds 0 none 0 ([0x3042, 0x3002, 0x3044].take 4096) ∧
+    getEos v 4096 none [0x3042, 0x3002, 0x3044] = .ok (.pos (extEnd [0x3042, 0x3002, 0x3044] 2)) := by
+  refine ⟨Or.inl (by decide), Or.inr (Or.inl (by decide)), Or.inr (Or.inr (Or.inl ⟨by decide, by decide⟩)),
+    Or.inr (Or.inr (Or.inr ⟨_, rfl, by cases v <;> decide⟩)), ?_, ?_, by decide, by cases v <;> decide⟩
+  · exact ⟨3, by decide, by decide, _, List.Mem.head _, _, List.Mem.head _, by decide, by decide, Or.inl (by decide)⟩
+  · rintro (h | h | ⟨_, h⟩ | ⟨_, h, _⟩)
+    · revert h; decide
+    · revert h; decide
+    · revert h; decide
+    · cases h
+
+/-- the two patterns as data, run by the backtracking semantics: `。。a` (lengths 2 then 1), `・・・・。`
+(possessive: only 5), a period after an alphanumeric (no match), `<br><BR><br>x` (12 then 8), the matches
+`find_iter` yields in `あ。い！？う`, and SPACES on `あ い う` (backtracks to the last blank) and on
+`あ\n\n い` (the line break and all white space behind it) -/
+example :
+    RX.run reBreaker (some 0x3042) [0x3002, 0x3002, 0x61] = [2, 1] ∧
+    RX.run reBreaker none [0x30FB, 0x30FB, 0x30FB, 0x30FB, 0x3002] = [5, 4] ∧
+    RX.run reBreaker (some 0x61) [0x2E, 0x3042] = [] ∧
+    RX.run reBreaker (some 0x3042) [0x2E, 0x3042] = [1] ∧
+    RX.run reBreaker none [0x3C, 0x62, 0x72, 0x3E, 0x3C, 0x42, 0x52, 0x3E, 0x3C, 0x62, 0x72, 0x3E, 0x78] = [12, 8] ∧
+    RX.findIter reBreaker 7 0 none [0x3042, 0x3002, 0x3044, 0xFF01, 0xFF1F, 0x3046] = [(1, 2), (3, 5)] ∧
+    RX.findFrom reSpaces 0 none [0x3042, 0x20, 0x3044, 0x20, 0x3046] = some (0, 4) ∧
+    RX.findFrom reSpaces 0 none [0x3042, 0x0A, 0x0A, 0x20, 0x3044] = some (0, 4) ∧
+    RX.findFrom reSpaces 0 none [0x0A, 0x3042, 0x3044] = none := by
+  decide
 
 end C16
